@@ -530,6 +530,18 @@ func (m *Module) payout(w *engine.World, tx *engine.TxRecord, p *poolM, f *farme
 			m.vio(w, p, "C06", "share/farmer-overpaid", "pool %s denom %s: farmer %s has been paid %s, exact stake-weighted share of the released rewards so far is %s (excess %s) after %d interactions: at least one base unit per interaction too much",
 				p.ID, d, m.nameOf(w, sender), f.Paid[d], f.Exact[d].FloatString(6), over.FloatString(6), f.Inter)
 		}
+		if kind == "unstake" {
+			// C05: a withdrawal pays "exactly that amount of the staked token plus their
+			// accrued rewards": everything accrued so far is paid out by an unstake, so the
+			// cumulative payout may fall short of the exact share only by the stated rounding
+			w.Hit("C05.unstake_reward_checks")
+			under := new(big.Rat).Sub(f.Exact[d], new(big.Rat).SetInt(f.Paid[d]))
+			tol := new(big.Rat).Add(new(big.Rat).SetInt64(f.Inter), f.Trunc)
+			if under.Cmp(tol) >= 0 {
+				m.vio(w, p, "C05", "unstake/accrued-rewards-short", "pool %s denom %s: after an unstake farmer %s has been paid %s in total, the exact stake-weighted share accrued so far is %s (short by %s, tolerance %s after %d interactions)",
+					p.ID, d, sender, f.Paid[d], f.Exact[d].FloatString(6), under.FloatString(6), tol.FloatString(6), f.Inter)
+			}
+		}
 		// conservation per pool: Σ paid ≤ Σ released
 		if p.PaidOut[d].Cmp(p.Released[d]) > 0 {
 			m.vio(w, p, "C06", "conservation/pool-paid-more-than-released", "pool %s denom %s: farmers have been paid %s in total but only %s was released (rate %s, funded %s); the excess came out of rewards collected for other pools; this %s paid %s to %s (stakes: %s)",
